@@ -15,7 +15,7 @@ PROPERTY = 'C20'
 FUNCTIONS = ['emd.logger.wrap_verbose', 'emd.logger.set_up', 'emd.logger.set_level', 'emd.logger.get_level', 'emd.logger.disable',
              'emd.logger.enable', 'emd.logger.sift_logger', 'emd.sift.sift / mask_sift (decorated entry points)']
 BOUNDS = {
-    'quick': 'every history of <= 3 operations from {set_up(level), set_level(level), disable, enable, decorated call returning, decorated call '
+    'quick': 'every history of <= 3 operations from {set_up(level or default), set_level(level), disable, enable, decorated call returning, decorated call '
              'raising} x levels {CRITICAL, WARNING, INFO, DEBUG} x verbose in {None, 4 levels}, from the never-set-up and from the set-up state '
              '(operation codes and parameters are solver integers, enumerated exhaustively by the solver-driven fork tree); inductive step: '
              'arbitrary console level and disabled flag, one decorated call; result independence: all four decorated variants (sift N=6, mask_sift N=5, ensemble_sift N=5 and complete_ensemble_sift N=5 with one member, cap 1 and a seeded noise stream, non-default imf_opts) under 5 logger states',
@@ -110,11 +110,15 @@ def history(h):
         par = h.int('par%d' % k, 0, 4)
         if op in (2, 3):
             h.assume(par == 0)
-        elif op in (0, 1):
+        elif op == 1:
             h.assume(par <= 3)
         par = int(par)
         try:
-            if op == 0:
+            if op == 0 and par == 4:
+                L.set_up()                      # no level given: the documented default console level (INFO)
+                model = logging.INFO
+                trace.append('set_up()')
+            elif op == 0:
                 L.set_up(level=LEVELS[par])
                 model = getattr(logging, LEVELS[par])
                 trace.append('set_up(%s)' % LEVELS[par])
